@@ -121,12 +121,103 @@ CLAIMED = {
              'known findings at the config-ops layer (reachability notes in notes/C19.md).',
         technique='Lean 4 proofs over config/duration/memory models + step-level differential on real config ops + real-compiler replay of DESCRIBE text',
     ),
+
+    'C01': dict(
+        category='proof',
+        text='Lean theorems for the expression core: parse (pp e) = some e for every Safe e (WF + the parenthesisation '
+             'side conditions the real printer needs), print idempotence, parse_wf, over a precedence table GENERATED '
+             'from the real grammar classes on every run; decide-checked counterexamples where WF alone is not enough '
+             '(the real printer omits parentheses around prefix forms). Tie: real printer→real tokenizer token streams vs '
+             'pp; ~3000 unparenthesised operator chains through the real LR grammar vs the model parser. The property '
+             'itself (parse→print→parse equal ASTs, print idempotent) is evaluated on the REAL parser/printer for ~13 600 '
+             'texts per quick run (upstream corpora, operator-pair matrix, identifiers-in-position × keyword classes, '
+             '250 DDL/SDL templates, mutants), in 7 printer modes.',
+        design_ref='§4 C01, §7',
+        note='DDL/SDL/migration/CONFIGURE printers (~110 of 180 visit_* methods) are covered only by the real-code oracle, '
+             'not by theorems. Parsing runs through the front-end bridge (LALR tables rebuilt from the real grammar; '
+             'fidelity gate in DESIGN §7). 38 genuine round-trip defect families are open known findings.',
+        technique='Lean 4 proof of print/parse round trip over generated precedence table + real-code round-trip oracle through the parser bridge',
+    ),
+    'C09': dict(
+        category='proof',
+        text='Lean refinement theorems: the compiler-state machine (transcribed from dbstate.py, with object identity of '
+             'Transaction objects) refines a PostgreSQL-style savepoint-stack spec for every history incl. rejected '
+             'calls (refines, rejected_unchanged, rollback/rollback-to/release/commit corollaries); protocol-level '
+             'refinement for server-model × compiler-state × transport (pickle and fixed REUSE pool) with compile and '
+             'backend failures inside a stated envelope, decide-checked counterexamples outside it. Tie: real '
+             'CompilerConnectionState/Transaction driven step by step; real Compiler.compile/compile_in_tx, real '
+             'pool.FixedPool + real worker.py (in-process), and real statements through the bridge.',
+        design_ref='§4 C09, §7',
+        note='dbview.pyx / execute.pyx are Cython and cannot run: the server half is a transcription (Lean Server + Python '
+             'Sim compared with each other, not with the Cython code). Four protocol findings are open known findings.',
+        technique='Lean 4 refinement proof + differential against real dbstate/compiler/pool/worker code',
+    ),
+    'C12': dict(
+        category='proof',
+        text='Lean theorems over tables GENERATED each run from the real bootstrapped std schema (scalars, implicit casts, '
+             '517 operator/function overloads): commonType = least upper bound (common_lub), resolution deterministic and '
+             'permutation-invariant (resolve_det), numeric operator table agrees with typed evaluation (numeric_table, '
+             'decide +kernel), soundness of inferType w.r.t. evaluation for the calculus (C12_sound_partial with the '
+             'inCalc side condition). Tie: real cast distance/common type on all 361 scalar pairs; ~2750 operator cases '
+             'and ~950 queries through the real compile_ast_to_ir (ir.stype), real output descriptors, and real '
+             'toy_eval_model values classified against the inferred type.',
+        design_ref='§4 C12, §7',
+        note='toy_eval_model cannot distinguish int16/32/64/bigint nor float32/64 at value level. C12_sound is partial '
+             '(inCalc side condition proved for numeric arithmetic/comparison, checked per query otherwise).',
+        technique='Lean 4 proofs over tables regenerated from the real std schema + differential with real compiler and toy_eval_model',
+    ),
+    'C13': dict(
+        category='translation_validation',
+        text='A scope checker is proved sound AND complete in Lean against a declarative definition of PostgreSQL scoping '
+             '(LATERAL, CTEs incl. RECURSIVE, sub-select exports, DML targets/excluded, JOIN ON); every SQL tree the REAL '
+             'compiler emits for the generated population (≈280 queries/quick run over 4 schemas, 3772 in thorough) is '
+             'exported and must pass it; ParamRef numbers must match the reported argmap (argmap theorems proved for the '
+             'model of the real function); each query is compiled in two fresh processes with different hash seeds and '
+             'SQL text/argmap/descriptors compared byte for byte.',
+        design_ref='§4 C13, §7',
+        note='The guarantee is per emitted query over the generated population (the 15 kloc SQL compiler is not modelled). '
+             'PostgreSQL scoping rules as stated in Model/PgAst.lean are a trusted spec (no server). Nondeterminism of '
+             'emitted text (set iteration order) is an open known finding.',
+        technique='verified scope checker (Lean 4, sound+complete) run on every emitted SQL tree + double compilation',
+    ),
+    'C14': dict(
+        category='proof',
+        text='Lean codec theorems for both protocol families: decode (encode d) = d for the documented-format decoder incl. '
+             'annotations (C14_roundtrip), prefix/no-overlap, de-duplication, derive() contexts, and injectivity of the id '
+             'preimage for arbitrary element names (C14_id_inj, after fix c2beb91). Tie: the REAL encoder driven through '
+             'stub schema objects subclassing the real classes (every _describe_* path) compared byte for byte with the '
+             'model; real parse; real id functions; level 2: out_type_data/in_type_data of real compiled queries for '
+             'protocols 1.0/2.0/3.0 × inline options decoded, re-encoded and compared with the query shape.',
+        design_ref='§4 C14, §7',
+        note='SHA-1/uuid5 collision resistance assumed. NUL in names excluded (tokenizer rejects it; checked each run). '
+             'Schema→descriptor abstraction is harness code.',
+        technique='Lean 4 codec round-trip and id-injectivity proofs + byte-level differential against the real encoder/decoder',
+    ),
+    'C17': dict(
+        category='proof',
+        text='Lean theorems over the delta-sync protocol model (identity tokens, falsy values, failure points): C17_intx at '
+             'full strength for every history; failed sync changes nothing (unconditional); C17_used / C17_belief under '
+             'the single hypothesis NoStatus2 with decide-checked counter-histories for the full statements; theorems '
+             'documenting what the three fix: commits repaired. Tie: a real FixedPool/SimpleAdaptivePool with real '
+             'worker.py instances in-process (only the socket transport and the compiler entry point replaced), compared '
+             'after every request (wire contents, callback, outcome class, compiler inputs, belief and actual state).',
+        design_ref='§4 C17, §7',
+        note='Process transport, worker restarts and the multi-tenant LRU are not modelled. Status-2 (unserialisable '
+             'result) family is an open known finding.',
+        technique='Lean 4 invariant proofs over sync protocol + differential against real pool/worker code in-process',
+    ),
 }
 
 NOT_YET = 'check not built yet in this round (planned in DESIGN.md §4); not claimed until its theorem and tie exist'
 
 
+# packages delivered but not yet green on the unchanged tree (being reworked): not claimed until they are
+PENDING = {'C13'}
+
+
 def main():
+    for _p in PENDING:
+        CLAIMED.pop(_p, None)
     checks = []
     for pid in ALL:
         if pid not in CLAIMED:
